@@ -107,6 +107,8 @@ def mutations(cfg: dict) -> Iterator[Tuple[str, dict, List[int]]]:
                     continue
                 for mv in yamlrw.scalar_mutants(v) if not isinstance(v, (dict, list)) else []:
                     yield ("param-leaf", yamlrw.set_(cfg, path, mv), [i])
+                for mv in yamlrw.type_mutants(v) if not isinstance(v, (dict, list)) else []:
+                    yield ("param-leaf-type", yamlrw.set_(cfg, path, mv), [i])
                 if isinstance(v, dict):
                     yield ("param-add-key", yamlrw.set_(cfg, path + ("zz_new",), 1), [i])
                     for k in v:
@@ -132,6 +134,13 @@ def mutations(cfg: dict) -> Iterator[Tuple[str, dict, List[int]]]:
                         nv = list(vals)
                         nv[j] = nv[j] + 0.5
                         yield (f"sweep-sequence-element[{j}/{len(vals)}]", yamlrw.set_(cfg, vp + ("values",), nv), [i])
+                        for tv in yamlrw.type_mutants(vals[j]):
+                            nv = list(vals)
+                            nv[j] = tv
+                            yield (f"sweep-sequence-element-type[{j}/{len(vals)}]", yamlrw.set_(cfg, vp + ("values",), nv), [i])
+                    allt = [yamlrw.type_mutants(x)[0] if yamlrw.type_mutants(x) else x for x in vals]
+                    if allt != list(vals) or any(type(a) is not type(b) for a, b in zip(allt, vals)):
+                        yield ("sweep-sequence-all-types", yamlrw.set_(cfg, vp + ("values",), allt), [i])
                     yield ("sweep-sequence-append", yamlrw.set_(cfg, vp + ("values",), list(vals) + [vals[-1]]), [i])
                     if len(vals) > 1 and vals[0] != vals[1]:
                         yield ("sweep-sequence-swap", yamlrw.set_(cfg, vp + ("values",), [vals[1], vals[0]] + list(vals[2:])), [i])
